@@ -323,6 +323,10 @@ def roots(ctx, sym):
             if n >= 2 and len(d["phases"]) == 0:
                 continue  # nothing pending: covered by the other roots' synced twins
             out.append(d)
+    # (index, conjugate index) matrices: eigh / solve / trace apply to the state itself
+    for d in U.pair_arrays(sym, "two", "le1", ferm=True, phases="all", label=3):
+        if len(d["phases"]):
+            out.append(d)
     # derived roots: already-fused arrays (one and two fused axes) that picked up pending signs AFTER the fuse
     for n, menu, charges, sp in ((2, "m3", "all", "probe"), (3, "m2", "two", "probe0")):
         for j, d in enumerate(U.arrays(sym, n, menu, "a", charges, sp, ferm=True, phases="none", label=3)):
